@@ -1191,3 +1191,9 @@ mod tests {
         });
     }
 }
+
+// Verification hook (guard: `--cfg ipa_verif`, test builds only). Compiled out unless the guard is set.
+#[cfg(all(test, ipa_verif))]
+pub(crate) mod ipa_verif_h3 {
+    include!(concat!(env!("IPA_VERIF_DIR"), "/h3_context.rs"));
+}
